@@ -48,14 +48,58 @@ Section Source.
   Definition compile_call (k : call) (oc : item) : res (dict * str * option item) :=
     compile V C H (k_render k) yload (k_match k) (k_tree k) (k_pv k) oc.
 
-  (* YamlTargetSource.get_data (the deep copy of the returned data is the identity on values) *)
+  (* YamlTargetSource.get_data over any cache (the deep copy of the returned data is the identity on values) *)
+  Section AnyCache.
+    Variable S : Type.
+    Variable cget : str -> S -> option item * S.
+    Variable cset : str -> item -> S -> S.
+    Definition step_with (st : S) (k : call) : S * res (dict * str) :=
+      let (old, st1) := cget (k_sys k) st in
+      match compile_call k (match old with Some it => it | None => empty_item end) with
+      | Err e => (st1, Err e)
+      | Ok (d, v, Some new) => (cset (k_sys k) new st1, Ok (d, v))
+      | Ok (d, v, None) => (st1, Ok (d, v))
+      end.
+    Fixpoint history_with (st : S) (ks : list call) : list (res (dict * str)) :=
+      match ks with
+      | [] => []
+      | k :: r => let (st', out) := step_with st k in out :: history_with st' r
+      end.
+
+    (* ---- interleaved calls (several threads over one source) ----
+       a call reads its cache item (EGet: get-item, then compile_data on the snapshot the call sees),
+       and stores its new item later (ESet); anything may happen in between, including the sets of
+       other calls and a second get of the same call index *)
+    Inductive event := EGet (i : nat) | ESet (i : nat).
+    Definition pending := list (nat * (str * item)).
+    Definition pend_find (i : nat) (p : pending) : option (str * item) :=
+      match find (fun e => Nat.eqb i (fst e)) p with Some e => Some (snd e) | None => None end.
+    Fixpoint run_events (calls : list call) (evs : list event) (st : S) (pend : pending)
+      : list (nat * res (dict * str)) * S :=
+      match evs with
+      | [] => ([], st)
+      | EGet i :: r =>
+          match nth_error calls i with
+          | None => run_events calls r st pend
+          | Some k =>
+              let (old, st1) := cget (k_sys k) st in
+              match compile_call k (match old with Some it => it | None => empty_item end) with
+              | Err e => let (o, s') := run_events calls r st1 pend in ((i, Err e) :: o, s')
+              | Ok (d, v, Some new) =>
+                  let (o, s') := run_events calls r st1 ((i, (k_sys k, new)) :: pend) in ((i, Ok (d, v)) :: o, s')
+              | Ok (d, v, None) => let (o, s') := run_events calls r st1 pend in ((i, Ok (d, v)) :: o, s')
+              end
+          end
+      | ESet i :: r =>
+          match pend_find i pend with
+          | Some (sys, new) => run_events calls r (cset sys new st) pend
+          | None => run_events calls r st pend
+          end
+      end.
+  End AnyCache.
+
   Definition get_data_step (st : lru item) (k : call) : lru item * res (dict * str) :=
-    let (old, st1) := cache_get cap (k_sys k) st in
-    match compile_call k (match old with Some it => it | None => empty_item end) with
-    | Err e => (st1, Err e)
-    | Ok (d, v, Some new) => (lru_set cap (k_sys k) new st1, Ok (d, v))
-    | Ok (d, v, None) => (st1, Ok (d, v))
-    end.
+    step_with (lru item) (cache_get cap) (lru_set cap) st k.
 
   Fixpoint run_history (st : lru item) (ks : list call) : list (res (dict * str)) :=
     match ks with
